@@ -172,7 +172,9 @@ class FillCore(Space):
                        transitions=len(trace), traces=ntr)
 
 
-MARKWORDS = ["aa", "-", "1.", "#", "b", ">", "+", "*", "2)", "##", "cccc", "10."]
+MARKWORDS = ["aa", "-", "1.", "#", "b", ">", "+", "*", "2)", "##", "cccc", "10.",
+             # appended later: runs that are escaped character by character, a rule, a fence with text
+             "***", "____", "---", "~~~x"]
 
 
 class Markers(Space):
